@@ -414,10 +414,16 @@ pub fn check_set_state_mutations(set: &SolutionSet) -> Result<(), InvalidSolutio
     }
 
     // Ensure that no more than one mutation per slot is proposed.
+    // The value proposed for each slot so far, by any solution of the set.
+    let mut proposed: HashMap<(&ContentAddress, &Key), &Value> = HashMap::new();
     for solution in &set.solutions {
         let mut mut_keys = HashSet::new();
         for mutation in &solution.state_mutations {
-            if !mut_keys.insert(&mutation.key) {
+            // Two solutions of the same contract may only agree on a slot: with different
+            // values the post state would depend on the order of the solutions.
+            let slot = (&solution.predicate_to_solve.contract, &mutation.key);
+            let agrees = *proposed.entry(slot).or_insert(&mutation.value) == &mutation.value;
+            if !mut_keys.insert(&mutation.key) || !agrees {
                 return Err(InvalidSetStateMutations::MultipleMutationsForSlot(
                     solution.predicate_to_solve.clone(),
                     mutation.key.clone(),
